@@ -183,7 +183,8 @@ def ResRefLazy (r : Except PlanErr (RResult D)) (ref : RRes D) : Prop :=
   | .ok (fms, s) => ∃ rows, ref = some (fms, rows) ∧ ∀ l, rows = some l → collect s = some l
   | .error _ => ref = none
 
-/-- the full claim: every reduction-free tree (joins, drop, select, named reduce included) -/
+/-- the full claim: every reduction-free tree (joins, drop, select, named reduce included);
+proved as `C11_plan_eq_ref` in Props/C11Full.lean -/
 def C11_plan_eq_ref_full_statement : Prop :=
   ∀ (D : Type) (O : Ops D) (fix : Bool) (from_ to : Int) (q : RDs D), WfR q → NoRedR q →
     ResRefLazy (execR O fix from_ to q) (semR O fix from_ to q)
